@@ -124,14 +124,14 @@ def step (s : State) (toks : List String) : State × String :=
     | some p =>
       (s, "pre " ++ (match verifyPrereqs s.cfg s.zone p with | some e => showRc e | none => "ok"))
     | none => (s, "bad-op")
-  | ["cut", k] =>
+  | "cut" :: k :: _ =>
     match k.toNat? with
     | some k =>
       match recover s.cfg (s.journal.take k) with
       | some z => (s, "rec ok " ++ tail { s with zone := z, journal := s.journal.take k })
       | none => (s, "rec err")
     | none => (s, "bad-op")
-  | ["restart", k] =>
+  | "restart" :: k :: _ =>
     match k.toNat? with
     | some k =>
       match recover s.cfg (s.journal.take k) with
